@@ -153,7 +153,7 @@ def _passthrough_case(draw):
     doctype = draw(st.sampled_from(["", "", "<!DOCTYPE html>", "<!DOCTYPE HTML PUBLIC \"-//W3C//DTD HTML 4.01//EN\" \"http://www.w3.org/TR/html4/strict.dtd\">\n"]))
     body = "".join(draw(_doc_nodes(3)))
     nl = draw(st.sampled_from(["", "\n", "\r\n"]))
-    return {"mode": "passthrough", "doc": doctype + body + nl}
+    return {"mode": "passthrough", "doc": doctype + body + nl, "minimize": draw(st.booleans())}
 
 
 @st.composite
@@ -167,7 +167,7 @@ def _case(draw):
     ctx = draw(talgen.context(hostile=True))
     if mode == "skeleton":
         tpl = _strip_structure(tpl)
-    return {"mode": mode, "template": tpl, "ctx": ctx}
+    return {"mode": mode, "template": tpl, "ctx": ctx, "minimize": draw(st.booleans())}
 
 
 def strategy(tier):
@@ -197,10 +197,10 @@ def _skeleton(text):
     return [(t[0], t[1], tuple(sorted(t[2]))) if t[0] == "s" else (t[0], t[1]) for t in talgen.tokenise(text) if t[0] in ("s", "e")]
 
 
-def _expand(template_nodes, ctx, allow_python=0, extra=None):
+def _expand(template_nodes, ctx, allow_python=0, extra=None, minimize=False):
     from simpletal import simpleTAL
     text = M.serialise(template_nodes)
-    tpl = simpleTAL.compileHTMLTemplate(text)
+    tpl = simpleTAL.compileHTMLTemplate(text, minimizeBooleanAtts=1 if minimize else 0)
     c = c17.make_context(ctx, allow_python)
     for k, v in (extra or {}).items():
         c.addGlobal(k, v)
@@ -210,14 +210,15 @@ def _expand(template_nodes, ctx, allow_python=0, extra=None):
 
 
 def _check_skeleton(case, ctx):
-    text, hostile_out, _ = _expand(case["template"], case["ctx"])
+    mini = bool(case.get("minimize"))
+    text, hostile_out, _ = _expand(case["template"], case["ctx"], minimize=mini)
     inert_ctx = _inert(copy.deepcopy(case["ctx"]), [0])
-    _, inert_out, _ = _expand(case["template"], inert_ctx)
+    _, inert_out, _ = _expand(case["template"], inert_ctx, minimize=mini)
     vals = [v for v in _strings(case["ctx"]) if re.search(r"[<>&\"']", v)]
     reached = [v for v in vals if v in _unescape_all(hostile_out)]
     if reached:
         ctx.nontriv()
-    ctx.label("skeleton", "hostile-values-reaching:%d" % min(len(reached), 3))
+    ctx.label("skeleton", "hostile-values-reaching:%d" % min(len(reached), 3), "minimizeBooleanAtts:%d" % mini)
     ctx.sample({"template": text[:500]}, cls="skeleton")
     a, b_ = _skeleton(hostile_out), _skeleton(inert_out)
     if a != b_:
@@ -264,9 +265,9 @@ def _doc_tokens(text):
     return talgen.tokenise(text)
 
 
-def _expand_doc(doc):
+def _expand_doc(doc, minimize=False):
     from simpletal import simpleTAL, simpleTALES
-    tpl = simpleTAL.compileHTMLTemplate(doc)
+    tpl = simpleTAL.compileHTMLTemplate(doc, minimizeBooleanAtts=1 if minimize else 0)
     out = io.StringIO()
     tpl.expand(simpleTALES.Context(), out)
     return out.getvalue()
@@ -275,8 +276,9 @@ def _expand_doc(doc):
 def _check_passthrough(case, ctx):
     doc = case["doc"]
     try:
-        once = _expand_doc(doc)
-        twice = _expand_doc(once)
+        mini = bool(case.get("minimize"))
+        once = _expand_doc(doc, mini)
+        twice = _expand_doc(once, mini)
     except Exception as e:
         return [Fail("passthrough-raised:%s" % drive.exc_signature(e), "TAL-free document %r raised %r" % (doc[:300], e))]
     interesting = bool(re.search(r"&[#a-zA-Z]|<!--|<script|<style|<SCRIPT|<\?| (checked|disabled)[ >/]", doc))
@@ -286,6 +288,9 @@ def _check_passthrough(case, ctx):
     ctx.sample({"doc": doc[:500]}, cls="passthrough")
     fails = []
     a, b_ = _doc_tokens(once), _doc_tokens(doc)
+    if mini:
+        # minimizeBooleanAtts: the value of a boolean attribute is dropped by design - compare such attributes by name
+        a, b_ = _boolnorm(a), _boolnorm(b_)
     if a != b_:
         i = next((k for k, (x, y) in enumerate(zip(a, b_)) if x != y), min(len(a), len(b_)))
         w = b_[i] if i < len(b_) else ("?",)
@@ -295,6 +300,15 @@ def _check_passthrough(case, ctx):
     if twice != once:
         fails.append(Fail("not-idempotent", "second expansion changes the document %r: %r -> %r" % (doc[:200], once[:200], twice[:200])))
     return fails
+
+
+def _boolnorm(toks):
+    out = []
+    for t in toks:
+        if t[0] == "s":
+            t = (t[0], t[1], {k: (k if k.lower() in ("checked", "disabled") else v) for k, v in t[2].items()})
+        out.append(t)
+    return out
 
 
 def _kind(tok, toks, i):
@@ -325,7 +339,7 @@ def _global_defines(nodes, out):
 def _check_restore(case, ctx):
     from simpletal import simpleTAL
     text = M.serialise(case["template"])
-    tpl = simpleTAL.compileHTMLTemplate(text)
+    tpl = simpleTAL.compileHTMLTemplate(text, minimizeBooleanAtts=1 if case.get("minimize") else 0)
     c = c17.make_context(case["ctx"])
     before_globals = dict(c.globals)
     before_locals = dict(c.locals)
